@@ -222,6 +222,19 @@ def write_gro(path, atoms, box, title="supplied"):
     Path(path).write_text("\n".join(lines) + "\n")
 
 
+def write_pdb(path, atoms, box=None, title="supplied"):
+    """atoms: list of (resid, resname, name, xyz in nm); a CRYST1 record only when a box is given"""
+    lines = [f"TITLE     {title}"]
+    if box is not None:
+        lines.append(f"CRYST1{box[0] * 10:9.3f}{box[1] * 10:9.3f}{box[2] * 10:9.3f}{90:7.2f}{90:7.2f}{90:7.2f} P 1           1")
+    lines.append("MODEL        1")
+    for i, (resid, resname, name, xyz) in enumerate(atoms, start=1):
+        lines.append(f"ATOM  {i % 100000:5d} {name[:4]:<4s} {resname[:4]:<4s}A{resid % 10000:4d}    "
+                     f"{xyz[0] * 10:8.3f}{xyz[1] * 10:8.3f}{xyz[2] * 10:8.3f}  1.00  0.00")
+    lines += ["TER", "ENDMDL", "END"]
+    Path(path).write_text("\n".join(lines) + "\n")
+
+
 class Result:
     def __init__(self):
         self.exc = None
@@ -278,12 +291,21 @@ def run_gen_coords(spec, ctx, timeout=15, kwargs_extra=None, before_build=None, 
         kwargs["build"] = [bpath]
     coords = spec.get("coords")
     if coords:
-        cpath = ctx.dir / "input.gro"
-        write_gro(cpath, [tuple(a) for a in coords["atoms"]], coords["box"])
+        if coords.get("format") == "pdb":
+            cpath = ctx.dir / "input.pdb"
+            write_pdb(cpath, [tuple(a) for a in coords["atoms"]], coords["box"] if coords.get("cryst", True) else None)
+        else:
+            cpath = ctx.dir / "input.gro"
+            write_gro(cpath, [tuple(a) for a in coords["atoms"]], coords["box"])
         if coords["mode"] == "c":
             kwargs["coordpath"] = cpath
         else:
             kwargs["coordpath_meta"] = cpath
+            if coords.get("also_atoms"):
+                # -c and -mc together: atom positions and residue centres for the same residues
+                apath = ctx.dir / "input_atoms.gro"
+                write_gro(apath, [tuple(a) for a in coords["also_atoms"]], coords["box"])
+                kwargs["coordpath"] = apath
     if kwargs_extra:
         kwargs.update(kwargs_extra)
 
